@@ -102,6 +102,16 @@ func (s *Sched) WaitExternalSettled(t *Task, timeout time.Duration) bool {
 			s.mu.Unlock()
 			return true
 		}
+		// woken, but stuck on a lock that a parked task holds: it will get to its yield point once that task moves on
+		if r := dbproxy.GoroutineWaitReason(t.gid); strings.Contains(r, "Mutex") || strings.HasPrefix(r, "semacquire") || strings.HasPrefix(r, "sync.") {
+			s.mu.Lock()
+			if t.st == stDormant || t.st == stRunning {
+				t.st = stBlocked
+				s.Blocked++
+			}
+			s.mu.Unlock()
+			return true
+		}
 		time.Sleep(50 * time.Microsecond)
 	}
 	return false
